@@ -281,6 +281,17 @@ func cmdCheck(args []string) {
 		byName[n] = sm
 		names = append(names, n)
 	}
+	if eng != nil && len(eng.contracts.TypeInvs) > 0 {
+		n := "closed-world/typeinv-objects-immutable"
+		sm := &oblSummary{Name: n, Kind: "closed-world", Desc: "objects of types with a declared type invariant are written only inside their constructors (whole-module scan of every Store)", Contract: true, Status: "discharged", Solver: "ssa-scan", Instances: 1}
+		if len(eng.tiProblems) > 0 {
+			sm.Status = "refuted"
+			sm.Detail = strings.Join(eng.tiProblems, "; ")
+			sm.Model = sm.Detail
+		}
+		byName[n] = sm
+		names = append(names, n)
+	}
 	if eng != nil && eng.prog != nil {
 		for _, rule := range ps.ClosedWorld {
 			n := "closed-world/" + rule.Name
